@@ -533,6 +533,8 @@ example : (BlockPostings.open cfg .basic .basic 3 [129, 132, 132]).skip.skipInfo
     ValidList [1, 5, 9] [1, 1, 1] := by
   refine ⟨by decide, by decide, ⟨by decide, by decide, by decide, by decide⟩⟩
 example : ∀ r ∈ [(2, 2), (0, 1), (1, 3)], r.1 + r.2 ≤ ([5, 0, 7, 9] : List Nat).length := by decide
+example : ValidList [0, 3, 9] (([[1, 2], [5], [0, 0, 7]] : List (List Nat)).map List.length) :=
+  ⟨by decide, by decide, by decide, by decide⟩
 example : 0 < TermInfoStore.BLOCK_LEN ∧ TermInfoStore.BLOCK_LEN = 256 := by decide
 theorem C07_terminfo_example_good :
     TermInfoStore.GoodStore 2 [⟨512, 51, 57, 110, 134⟩, ⟨3, 57, 60, 134, 134⟩, ⟨9, 70, 100, 140, 150⟩] := by
